@@ -17,7 +17,7 @@ def main():
     p = os.path.join(E.BUILD, f"{name}.rs")
     open(p, "w").write(text)
     extra = sys.argv[2:]
-    r = E.run_verus(p, extra=[a for a in extra if a.startswith("--")] or None)
+    r = E.run_verus(p, rlimit=u.get("rlimit"), extra=[a for a in extra if a.startswith("--")] or None)
     for d in r["diags"]:
         if d.get("level") in ("error", "warning") and "aborting due" not in d.get("message", ""):
             if d.get("level") == "warning" and "-w" not in extra: continue
